@@ -203,6 +203,10 @@ def _tainted_item(taint, esc, it, ctx=None):
                         seen_.add(caller.qual)
                         todo.append((caller, d + 1))
         return False
+    if it.kind == 'none-len':
+        # the None was put there by a repository generator for an item of the document it could not process (an unjoinable link):
+        # it depends on the document whenever the function handles document data at all
+        return taint.tainted(fi, node) or taint.func_has_tainted_param(fi)
     return taint.tainted(fi, node)
 
 
